@@ -25,6 +25,10 @@ func DerivePublic(priv []byte) (x, y []byte, err error) {
 
 	var pubBytes []byte
 	pubBytes = pub.Bytes_Unsafe()
+	if len(pubBytes) != 65 {
+		// [priv]G is the point at infinity (priv is 0 or a multiple of n): there is no public key
+		return nil, nil, errors.New("private key maps to the point at infinity")
+	}
 
 	return pubBytes[1:33], pubBytes[33:], nil
 }
